@@ -5,9 +5,9 @@ WT=/tmp/wt/$ID$TAG
 OUT=/tmp/seed/$ID$TAG
 git -C /repo worktree add --detach -f $WT HEAD >/dev/null 2>&1
 mkdir -p $OUT
-python3 - "$ID" "$WT" "$OUT" <<'PY'
+python3 - "$ID" "$WT" "$OUT" "${HINT:-}" <<'PY'
 import json,sys
-pid,wt,out=sys.argv[1:4]
+pid,wt,out,hint=sys.argv[1:5]
 rec=[json.loads(l) for l in open('/verif/properties.jsonl') if json.loads(l)['id']==pid][0]
 print(f"""You are helping test a verification effort for the Python library rzshrote/pybrops (plant-breeding simulation; numpy/pymoo based). Your job: write a REALISTIC BUG — a small source change to the library that BREAKS the semantic property given below, while the library still imports/compiles and the existing pinned test suite still passes.
 
@@ -33,6 +33,7 @@ Requirements on the changes:
 - Prefer changes that need something SPECIFIC to manifest — an unusual input (particular sizes, duplicated labels, exact 0/1 values, optional arrays present/absent), a multi-step sequence of operations, a particular configuration, or two cooperating sites that each look fine alone — rather than ones every ordinary call would expose at once.
 - The change must keep the library importable and the 92 pinned tests passing. Verify this yourself.
 - Verify yourself that demo.py passes on the unchanged worktree (git stash / checkout) and fails with the patch applied. If the unchanged code already violates the property in the way you wanted to demonstrate (the library has some genuine bugs), pick a different site.
+{('- ' + hint) if hint else ''}
 - Leave the worktree clean (git -C {wt} checkout -- .) when you finish.
 
 Final answer: a short summary per change (file, function, what breaks, how the demo shows it) and confirmation of the three verifications (tests pass with change; demo passes without; demo fails with).""")
